@@ -18,8 +18,8 @@ def g(fam, **kw):
 
 V1_QUICK = g('stream', v1good=150, v1corrupt=120, v1struct=120, v1mutate=200, v1trunc=10, v1len=25, v1max=75, v1adj=96, v1lenient=1, v1words=170, v1unicode=156, v1extra=340, v1prefix=66, known=140, v1straddle=231, v1ipfield=40, v1crsame=119, v1junk=80, v1cr=60, bytes=40)
 V1_THOROUGH = g('stream', v1good=4000, v1corrupt=4000, v1struct=3000, v1mutate=8000, v1trunc=300, v1len=400, v1max=700, v1adj=6144, v1lenient=1, v1words=170, v1unicode=156, v1extra=340, v1prefix=66, known=2000, v1straddle=231, v1ipfield=1500, v1crsame=119, v1junk=2500, v1cr=1500, bytes=1000)
-V2_QUICK = g('stream', v2good=120, v2corrupt=150, v2mutate=250, bparse=150, v2ctrl=700, v2len=330, v2sig=60, v2sigmulti=150, v2halves=75, reuse=24, known=140, mixed=80, bytes=40, huge=4)
-V2_THOROUGH = g('stream', v2good=3000, v2corrupt=4000, v2mutate=8000, bparse=4000, v2ctrl=65536, v2len=2500, v2sig=3060, v2sigmulti=800, v2halves=300, reuse=400, known=2000, mixed=2000, bytes=1000, huge=60)
+V2_QUICK = g('stream', v2good=120, v2corrupt=150, v2mutate=250, bparse=150, v2ctrl=700, v2grid=416, v2len=330, v2sig=60, v2sigmulti=150, v2halves=75, reuse=24, known=140, mixed=80, bytes=40, huge=4)
+V2_THOROUGH = g('stream', v2good=3000, v2corrupt=4000, v2mutate=8000, bparse=4000, v2ctrl=65536, v2grid=416, v2len=2500, v2sig=3060, v2sigmulti=800, v2halves=300, reuse=400, known=2000, mixed=2000, bytes=1000, huge=60)
 IPTEXT_QUICK = g('iptext', iprand=400)
 IPTEXT_THOROUGH = g('iptext', iprand=20000)
 TLV_QUICK = g('tlv', tlvrand=150, tlvtrunc=150, tlvbig=10, tlvmany=6, tlvprog=60, tlvhuge=6, tlvssl=64, tlvreal=2300)
